@@ -1,6 +1,9 @@
-// Collection vocabulary (TSS/TSD/TSL/TSB/TSW sources, mirrors, probes) and try/except helpers.
+// Collection vocabulary: scripted sources over a fixed set of shapes, a generic (erased, recursive)
+// endpoint dumper used by mirror nodes (tick driven) and probe nodes (passive, clock driven),
+// and try/except helpers.
 #pragma once
 #include "hg_nodes.h"
+#include <hgraph/types/time_series/ts_delta.h>
 
 namespace hv
 {
@@ -36,6 +39,386 @@ namespace hv
                 std::string msg = e.base().value().as_bundle().at("error_msg").checked_as<Str>();
                 Line("u.err").i(uid.value()).i(gid_of(nv.graph())).i((long long)nv.node_index()).t(now).i(1).s(msg);
             }
+        }
+    };
+
+    template <typename O>
+    decltype(auto) out_base(const O &o)
+    {
+        if constexpr (std::is_base_of_v<TSOutputView, O>) return static_cast<const TSOutputView &>(o);
+        else return o.base();
+    }
+
+    // ---- shapes ---------------------------------------------------------------------------
+    using VB    = TSB<"VB", Field<"x", TS<Int>>, Field<"s", TSS<Int>>>;
+    using S_TS  = TS<Int>;
+    using S_TSS = TSS<Int>;
+    using S_TSD = TSD<Int, TS<Int>>;
+    using S_TSL = TSL<TS<Int>, 3>;
+    using S_TSB = VB;
+    using S_TSW = TSW<Int, 3, 2>;
+    using S_DSS = TSD<Int, TSS<Int>>;
+    using S_DSB = TSD<Str, VB>;
+    using S_LB  = TSL<VB, 2>;
+    using S_DD  = TSD<Int, TSD<Int, TS<Int>>>;
+
+    // ---- generic endpoint dump (JSON) ---------------------------------------------------------
+    inline void jesc(std::string &o, const std::string &s)
+    {
+        o += '"';
+        for (char c : s)
+        {
+            if (c == '"' || c == '\\') { o += '\\'; o += c; }
+            else if (c == '\n') o += "\\n";
+            else if ((unsigned char)c < 0x20) o += ' ';
+            else o += c;
+        }
+        o += '"';
+    }
+    inline std::string vstr(const ValueView &v)
+    {
+        try { return v.has_value() ? v.to_string() : std::string{"<none>"}; }
+        catch (const std::exception &e) { return std::string{"<err:"} + e.what() + ">"; }
+    }
+
+    inline void dump_ep(std::string &o, const TSInputView &in, int depth = 0)
+    {
+        const auto *sch = in.schema();
+        const bool  valid = in.valid();
+        const bool  mod   = in.modified();
+        o += "{\"k\":";
+        o += std::to_string(sch ? (int)sch->kind : -1);
+        o += ",\"v\":";
+        o += valid ? "1" : "0";
+        o += ",\"m\":";
+        o += mod ? "1" : "0";
+        o += ",\"av\":";
+        o += in.all_valid() ? "1" : "0";
+        o += ",\"lmt\":";
+        o += std::to_string(toff(in.last_modified_time()));
+        if (sch == nullptr) { o += "}"; return; }
+        // delta readable?
+        {
+            o += ",\"d\":";
+            std::string ds;
+            try
+            {
+                ValueView d = in.delta_value();
+                ds = d.has_value() ? d.to_string() : std::string{"<none>"};
+            }
+            catch (const std::exception &e) { ds = std::string{"<err:"} + e.what() + ">"; }
+            jesc(o, ds);
+        }
+        switch (sch->kind)
+        {
+            case TSTypeKind::TS:
+            case TSTypeKind::SIGNAL:
+            case TSTypeKind::REF:
+            {
+                o += ",\"val\":";
+                jesc(o, valid ? vstr(in.value()) : std::string{"<none>"});
+                break;
+            }
+            case TSTypeKind::TSS:
+            {
+                auto s = in.as_set();
+                auto list = [&](const char *key, Range<ValueView> r) {
+                    o += ",\"";
+                    o += key;
+                    o += "\":[";
+                    bool first = true;
+                    for (const auto &v : r)
+                    {
+                        if (!first) o += ',';
+                        first = false;
+                        jesc(o, vstr(v));
+                    }
+                    o += "]";
+                };
+                list("vals", s.values());
+                list("add", s.added());
+                list("rem", s.removed());
+                break;
+            }
+            case TSTypeKind::TSD:
+            {
+                auto d = in.as_dict();
+                o += ",\"items\":{";
+                bool first = true;
+                for (auto [k, child] : d.items())
+                {
+                    if (!first) o += ',';
+                    first = false;
+                    jesc(o, vstr(k));
+                    o += ':';
+                    dump_ep(o, child, depth + 1);
+                }
+                o += "}";
+                auto klist = [&](const char *key, Range<ValueView> r) {
+                    o += ",\"";
+                    o += key;
+                    o += "\":[";
+                    bool f = true;
+                    for (const auto &v : r)
+                    {
+                        if (!f) o += ',';
+                        f = false;
+                        jesc(o, vstr(v));
+                    }
+                    o += "]";
+                };
+                klist("add", d.added_keys());
+                klist("rem", d.removed_keys());
+                klist("modk", d.modified_keys());
+                klist("validk", d.valid_keys());
+                // removed values stay readable for the cycle
+                o += ",\"remv\":{";
+                first = true;
+                for (auto [k, child] : d.removed_items())
+                {
+                    if (!first) o += ',';
+                    first = false;
+                    jesc(o, vstr(k));
+                    o += ':';
+                    std::string cv;
+                    try { cv = child.valid() ? vstr(child.value()) : std::string{"<none>"}; }
+                    catch (const std::exception &e) { cv = std::string{"<err:"} + e.what() + ">"; }
+                    jesc(o, cv);
+                }
+                o += "}";
+                break;
+            }
+            case TSTypeKind::TSL:
+            {
+                auto l = in.as_list();
+                o += ",\"ch\":[";
+                const std::size_t n = l.size();
+                for (std::size_t k = 0; k < n; ++k)
+                {
+                    if (k) o += ',';
+                    dump_ep(o, l.at(k), depth + 1);
+                }
+                o += "],\"modi\":[";
+                bool first = true;
+                for (auto [k, child] : l.modified_items())
+                {
+                    if (!first) o += ',';
+                    first = false;
+                    o += std::to_string(k);
+                }
+                o += "]";
+                break;
+            }
+            case TSTypeKind::TSB:
+            {
+                auto b = in.as_bundle();
+                o += ",\"ch\":[";
+                const std::size_t n = b.size();
+                for (std::size_t k = 0; k < n; ++k)
+                {
+                    if (k) o += ',';
+                    dump_ep(o, b.at(k), depth + 1);
+                }
+                o += "],\"modi\":[";
+                bool first = true;
+                for (auto [k, child] : b.modified_items())
+                {
+                    if (!first) o += ',';
+                    first = false;
+                    std::size_t fi = 0, q = 0;
+                    for (auto name : b.keys()) { if (name == k) fi = q; ++q; }
+                    o += std::to_string(fi);
+                }
+                o += "]";
+                break;
+            }
+            case TSTypeKind::TSW:
+            {
+                auto w = in.as_window();
+                o += ",\"vals\":[";
+                bool first = true;
+                if (w.size() > 0)
+                {
+                    for (const auto &v : w.values())
+                    {
+                        if (!first) o += ',';
+                        first = false;
+                        jesc(o, vstr(v));
+                    }
+                }
+                o += "],\"size\":";
+                o += std::to_string(w.size());
+                o += ",\"period\":";
+                o += std::to_string(w.period());
+                o += ",\"minp\":";
+                o += std::to_string(w.min_period());
+                break;
+            }
+        }
+        o += "}";
+    }
+
+    inline void log_dump(const char *kind, Int uid, const NodeView &nv, DateTime now, const TSInputView &in)
+    {
+        auto &c = ctx();
+        c.out += kind;
+        c.out += ' ';
+        c.out += std::to_string(uid);
+        c.out += ' ';
+        c.out += std::to_string(gid_of(nv.graph()));
+        c.out += ' ';
+        c.out += std::to_string((long long)nv.node_index());
+        c.out += ' ';
+        c.out += std::to_string(toff(now));
+        c.out += ' ';
+        std::string js;
+        try { dump_ep(js, in); }
+        catch (const std::exception &e) { js = std::string{"{\"error\":\""} + e.what() + "\"}"; }
+        // trace lines are whitespace tokenised: keep the JSON as one token
+        for (char &ch : js) { if (ch == ' ' || ch == '\t') ch = '_'; }
+        c.out += js;
+        c.out += '\n';
+    }
+
+    // ---- scripted mutation --------------------------------------------------------------------
+    // op grammar (per shape, recursive):
+    //   TS<Int>:  =<v> | i (invalidate)          TSS<Int>: +<v> | -<v> | c
+    //   TSD<K,V>: [<k>]<child op> | x[<k>] | c    TSL:      [<i>]<child op>
+    //   VB:       .x<child op> | .s<child op>      TSW:      ^<v>
+    template <typename T> struct is_tsd : std::false_type {};
+    template <typename K, typename V> struct is_tsd<TSD<K, V>> : std::true_type { using key = K; using val = V; };
+    template <typename T> struct is_tsl : std::false_type {};
+    template <typename E, auto N> struct is_tsl<TSL<E, N>> : std::true_type { using elem = E; };
+    template <typename T> struct is_tsw : std::false_type {};
+    template <typename V, std::size_t P, std::size_t M> struct is_tsw<TSW<V, P, M>> : std::true_type {};
+
+    template <typename K> K parse_key(const std::string &s);
+    template <> inline Int parse_key<Int>(const std::string &s) { return std::atoll(s.c_str()); }
+    template <> inline Str parse_key<Str>(const std::string &s) { return s; }
+
+    template <typename Sch>
+    void apply_op(const Out<Sch> &out, const std::string &op, DateTime now)
+    {
+        if (op.empty()) return;
+        if constexpr (std::is_same_v<Sch, TS<Int>>)
+        {
+            if (op[0] == '=') out.set(Int{std::atoll(op.c_str() + 1)});
+            else if (op[0] == 'i') { auto m = out_base(out).begin_mutation(now); (void)m.invalidate(); }
+            else throw std::runtime_error("bad TS op " + op);
+        }
+        else if constexpr (std::is_same_v<Sch, TSS<Int>>)
+        {
+            if (op[0] == '+') (void)out.add(Int{std::atoll(op.c_str() + 1)});
+            else if (op[0] == '-') (void)out.remove(Int{std::atoll(op.c_str() + 1)});
+            else if (op[0] == 'c') out.clear();
+            else throw std::runtime_error("bad TSS op " + op);
+        }
+        else if constexpr (is_tsd<Sch>::value)
+        {
+            using K = typename is_tsd<Sch>::key;
+            using V = typename is_tsd<Sch>::val;
+            if (op[0] == 'c') { out.clear(); return; }
+            const bool erase = op[0] == 'x';
+            const std::size_t lb = op.find('['), rb = op.find(']');
+            if (lb == std::string::npos || rb == std::string::npos) throw std::runtime_error("bad TSD op " + op);
+            K key = parse_key<K>(op.substr(lb + 1, rb - lb - 1));
+            if (erase) { (void)out.erase(key); return; }
+            Out<V> child = out[key];
+            apply_op<V>(child, op.substr(rb + 1), now);
+        }
+        else if constexpr (is_tsl<Sch>::value)
+        {
+            using E = typename is_tsl<Sch>::elem;
+            const std::size_t lb = op.find('['), rb = op.find(']');
+            if (lb == std::string::npos || rb == std::string::npos) throw std::runtime_error("bad TSL op " + op);
+            Out<E> child = out[(std::size_t)std::atoll(op.substr(lb + 1, rb - lb - 1).c_str())];
+            apply_op<E>(child, op.substr(rb + 1), now);
+        }
+        else if constexpr (std::is_same_v<Sch, VB>)
+        {
+            if (op.rfind(".x", 0) == 0) { auto c = out.template field<"x">(); apply_op<TS<Int>>(c, op.substr(2), now); }
+            else if (op.rfind(".s", 0) == 0) { auto c = out.template field<"s">(); apply_op<TSS<Int>>(c, op.substr(2), now); }
+            else throw std::runtime_error("bad TSB op " + op);
+        }
+        else if constexpr (is_tsw<Sch>::value)
+        {
+            if (op[0] == '^') out.push(Int{std::atoll(op.c_str() + 1)});
+            else throw std::runtime_error("bad TSW op " + op);
+        }
+    }
+
+    // cscript entry: "<t>|op,op,op"
+    inline long long cs_time(const std::string &e) { return std::atoll(e.c_str()); }
+
+    template <typename Sch>
+    struct CSrc
+    {
+        static constexpr auto name = "c_src";
+        static void start(NodeScheduler sched, State<Int> pos, Scalar<"uid", Int> uid, NodeView nv, DateTime now)
+        {
+            user_start(uid.value(), nv, now);
+            auto &sc = ctx().cscripts[uid.value()];
+            std::size_t p = 0;
+            while (p < sc.size() && tabs(cs_time(sc[p])) < now) ++p;
+            pos.set(Int{(long long)p});
+            if (p < sc.size()) sched.schedule(tabs(cs_time(sc[p])));
+        }
+        static void stop(Scalar<"uid", Int> uid, NodeView nv, DateTime now) { user_stop(uid.value(), nv, now); }
+        static void eval(NodeScheduler sched, State<Int> pos, Scalar<"uid", Int> uid, NodeView nv, DateTime now, Out<Sch> out)
+        {
+            maybe_fault(uid.value(), "eval");
+            auto &sc = ctx().cscripts[uid.value()];
+            std::size_t p = (std::size_t)pos.get();
+            if (p < sc.size() && tabs(cs_time(sc[p])) == now)
+            {
+                const std::string &e = sc[p];
+                const std::string ops = e.substr(e.find('|') + 1);
+                Line("c.write").i(uid.value()).i(gid_of(nv.graph())).i((long long)nv.node_index()).t(now).s(ops);
+                for (const auto &op : split(ops, ',')) apply_op<Sch>(out, op, now);
+                ++p;
+                pos.set(Int{(long long)p});
+                if (p < sc.size()) sched.schedule(tabs(cs_time(sc[p])));
+            }
+        }
+    };
+
+    // tick-driven mirror (active input) and clock-driven probe (passive input)
+    template <typename Sch>
+    struct CMirror
+    {
+        static constexpr auto name = "c_mirror";
+        HV_LIFECYCLE
+        static void eval(In<"a", Sch, InputValidity::Unchecked> a, Scalar<"uid", Int> uid, NodeView nv, DateTime now)
+        {
+            log_dump("c.mirror", uid.value(), nv, now, a.base());
+        }
+    };
+    template <typename Sch>
+    struct CProbe
+    {
+        static constexpr auto name = "c_probe";
+        HV_LIFECYCLE
+        static void eval(In<"a", Sch, InputActivity::Passive, InputValidity::Unchecked> a, In<"clk", TS<Int>> clk,
+                         Scalar<"uid", Int> uid, NodeView nv, DateTime now)
+        {
+            (void)clk;
+            log_dump("c.probe", uid.value(), nv, now, a.base());
+        }
+    };
+    // delta round trip: out receives only apply_delta(capture_delta(in)) each tick (the tree's pass_through_node logic,
+    // instrumented): C20 (b)
+    template <typename Sch>
+    struct CCopy
+    {
+        static constexpr auto name = "c_copy";
+        HV_LIFECYCLE
+        static void eval(In<"a", Sch> a, Scalar<"uid", Int> uid, NodeView nv, DateTime now, Out<Sch> out)
+        {
+            const Value delta = capture_delta(a.base());
+            std::string ds = delta.view().has_value() ? delta.view().to_string() : std::string{"<none>"};
+            for (char &ch : ds) { if (ch == ' ' || ch == '\t' || ch == '\n') ch = '_'; }
+            Line("c.delta").i(uid.value()).i(gid_of(nv.graph())).i((long long)nv.node_index()).t(now).s(ds);
+            apply_delta(out_base(out), delta.view());
         }
     };
 }  // namespace hv
